@@ -27,6 +27,7 @@ import (
 	"os"
 	"reflect"
 	"regexp"
+	"time"
 
 	"gitlab.com/aquachain/aquachain/common/log"
 	"verif/internal/fw"
@@ -72,13 +73,18 @@ func init() {
 			"alloc: announced sizes 56..2^64-1 at top level / in lists / in struct fields, valid large payloads, nestings to depth 10k (quick) / 200k (thorough). " +
 			"A case is non-trivial when at least one target accepted its input or a canonical input was offered; distinct = hash of the input bytes.",
 		Legs: func(tier string) []fw.Leg {
+			// watchdog only (firing = inconclusive): generous, the machine is shared
+			wd := 60 * time.Minute
+			if tier == "thorough" {
+				wd = 4 * time.Hour
+			}
 			return []fw.Leg{
-				{Name: "values", Variant: "plain", Batches: 16},
-				{Name: "exh", Variant: "plain", Batches: 16},
-				{Name: "mut", Variant: "plain", Batches: 16},
-				{Name: "alloc", Variant: "plain", Batches: 8, Env: []string{"GOMAXPROCS=1", "GOGC=off"}},
+				{Name: "values", Variant: "plain", Batches: 16, Timeout: wd},
+				{Name: "exh", Variant: "plain", Batches: 16, Timeout: wd},
+				{Name: "mut", Variant: "plain", Batches: 16, Timeout: wd},
+				{Name: "alloc", Variant: "plain", Batches: 8, Timeout: wd, Env: []string{"GOMAXPROCS=1", "GOGC=off"}},
 				// last: a non-terminating decode ends its batch (see arr1.go)
-				{Name: "arr1", Variant: "plain", Batches: 4},
+				{Name: "arr1", Variant: "plain", Batches: 4, Timeout: wd},
 			}
 		},
 		Run: run,
